@@ -390,7 +390,7 @@ def _fuzz_jobs(ctx, kinds_all):
     jobs = []
 
     def add(entry, kind, src, **kw):
-        j = {"op": "fuzz", "entry": entry, "kind": kind, "src": src}
+        j = {"op": kw.pop("op", "fuzz"), "entry": entry, "kind": kind, "src": src}
         sid = src.get("seed")
         j["ext"] = kw.pop("ext", None) or (_ext_for(kind, sid) if sid and not kw.get("foreign") else M.EXT[kind])
         kw.pop("foreign", None)
@@ -485,6 +485,47 @@ def _fuzz_jobs(ctx, kinds_all):
                     for w, h in combos[40:50]:
                         spread(kind, {"seed": sid, "muts": [["zipshell", w, h, rng.randrange(1 << 30)],
                                                             ["flip", rng.randrange(200), rng.randrange(8)]]}, rng.randrange(9))
+    # ---- container-aware mutants of EMBEDDED raster images: the dimension sniffers (util/image_utils, the copies in
+    #      docx / pptx / xlsx, doc's PNG chunk walker) meet hostile segment / chunk lengths inside a well-formed container
+    himgs = sorted(M.HOSTILE_IMAGES)
+    txt = M.SEEDS["plain"][0]
+
+    def blip(n):
+        return "pngblip" if n.startswith("p_") else "jpegblip"
+
+    def media(n):
+        return {"p": "image/png", "g": "image/gif", "b": "image/bmp"}.get(n[0], "image/jpeg")
+    for i, n in enumerate(himgs):
+        add("direct", "rtf", {"seed": txt, "muts": [["rtfpict", n, blip(n)]]}, foreign=True)
+        add("direct", "epub", {"seed": txt, "muts": [["epubimg", n, media(n)]]}, foreign=True)
+        if i % 4 == 0 or T:
+            add(rng.choice(["readfile", "cli", "member", "attachment"]), rng.choice(["rtf", "epub"]),
+                {"seed": txt, "muts": [["rtfpict", n, blip(n)]]} if i % 2 else {"seed": txt, "muts": [["epubimg", n, media(n)]]},
+                foreign=True)
+        # function level: every sniffer directly on the image bytes
+        add("direct", "plain", {"seed": txt, "muts": [["himg", n]]}, foreign=True, op="sniff")
+    zk = ["docx", "pptx", "xlsx", "odt", "odp", "ods", "odg"] if T else ["docx", "pptx", "xlsx", "odt"]
+    for k in zk:
+        picks = himgs if T else sorted(set(["j_len0", "j_len0_sof", "j_len1", "j_lenmax"] + rng.sample(himgs, 3)))
+        for n in picks:
+            add("direct", k, {"seed": M.SEEDS[k][0], "muts": [["zipimg", n]]})
+    patch_seeds = [("ppt", "fix:legacy_ms/ppt_with_images.ppt"), ("xls", "fix:legacy_ms/xls_with_images.xls")]
+    if T:
+        patch_seeds += [("ppt", "fix:legacy_ms/eurouni2.ppt"), ("doc", "fix:legacy_ms/headings.doc")]
+    for k, sid in patch_seeds:
+        picks = himgs if T else ["j_len0", "j_len0_sof", "j_len1", "j_lenmax", "p_lenmax", "p_chunks0"]
+        for n in picks:
+            for nth in ((0, 1, 2) if T else (0,)):
+                add("direct", k, {"seed": sid, "muts": [["imgpatch", n, nth]]})
+    if T:       # byte-level mutants of the hostile and of valid images, into the sniffers
+        pool_imgs = [("h", n) for n in himgs]
+        for _ in range(600):
+            tag, n = rng.choice(pool_imgs)
+            ln = len(M.HOSTILE_IMAGES[n])
+            mut = rng.choice([["flip", rng.randrange(ln), rng.randrange(8)], ["trunc", rng.randrange(ln + 1)],
+                              ["burst", rng.randrange(ln), 4, rng.randrange(1 << 30)], ["zero", rng.randrange(ln), 2],
+                              ["fill", rng.randrange(ln), 2]])
+            add("direct", "plain", {"seed": txt, "muts": [["himg", n], mut]}, foreign=True, op="sniff")
     # ---- format A routed to extractor B (21 x 21): the extractor function directly, and by file name
     pairs = [(a, b) for a in kinds_all for b in kinds_all if a != b]
     for a, b in pairs:
